@@ -156,6 +156,47 @@ def r13c(ctx, rep, cr):
         rep.holds('R13c', f, 'intent→send', '%d send site(s) after the AbortIntent record' % len(sends))
 
 
+def r13d(ctx, rep, cr):
+    rep.rule('R13d', 'memory never falls behind the log: once log_wal_entry(PhaseChange{to: Committing|Aborting}) has returned Ok, no write '
+                     'to DistributedTransaction.phase other than that phase or its completion (Committed resp. Aborted) is reachable in the '
+                     'same function for the same transaction (loop heads that dominate the log call are cut: the next iteration is another '
+                     'transaction). A coordinator that hands the transaction back as Prepared after a later log failure can decide the other '
+                     'way while the log still says Committing')
+    n = 0
+    allowed = {'Committing': {'Committing', 'Committed'}, 'Aborting': {'Aborting', 'Aborted'}}
+    for name, f in sorted(cr.fns.items()):
+        if f.file.endswith('tx_wal.rs'):
+            continue
+        pw = T.phase_writes(f)
+        if not pw:
+            continue
+        defs, uses = A.Defs(f), A.Uses(f)
+        dom = None
+        for D in ('Committing', 'Aborting'):
+            lc = T.log_calls(f, defs, 'PhaseChange', to=D)
+            for k, c in enumerate(lc):
+                ok = A.call_outcome(f, c, uses).ok
+                if not ok:
+                    rep.unresolved_instance('R13d', f, 'log→%s#%d' % (D, k), 'Ok edge of the log call not recognised')
+                    continue
+                n += 1
+                rep.analysed(f)
+                dom = dom or A.dominators(f)
+                heads = {x.bb for x in A.calls(f) if (re.search(r'Iterator>?::next$', x.generic) or re.search(r'Iterator>?::next$', x.resolved))
+                         and x.bb in dom[c.bb]}
+                R = A.reachable(f, [t for (_, t) in ok], cut_blocks=heads)
+                bad = [(bb, line, v) for (bb, line, v) in pw if bb in R and v not in allowed[D]]
+                if bad:
+                    bb, line, v = bad[0]
+                    rep.violation('R13d', f, 'phase-regression-after-%s' % D, f.loc(line),
+                                  'after PhaseChange→%s was logged the function can set the in-memory phase to %s: the coordinator then treats '
+                                  'a transaction whose %s decision is on disk as undecided (timeout sweep, abort or recover can decide the '
+                                  'opposite), and the next restart restores %s from the log' % (D, v or 'a non-constant value', D.lower(), D))
+                else:
+                    rep.holds('R13d', f, 'after log→%s#%d' % (D, k), 'only %s written afterwards' % '/'.join(sorted(allowed[D])))
+    rep.floor('R13d', 'logged decisions followed in their function', n, 4)
+
+
 def run(ctx, rep):
     cr = ctx.crate('tensor_chain')
     wal_rules.r02b(ctx, rep, ['TxWal'])
@@ -167,3 +208,4 @@ def run(ctx, rep):
     r13a(ctx, rep, cr)
     r13b(ctx, rep, cr)
     r13c(ctx, rep, cr)
+    r13d(ctx, rep, cr)
